@@ -9,6 +9,7 @@ det.KEEP_NAMED = False
 det.TIMER_EPS = 0.001
 
 DEBUG = False
+PROBE = None
 PROP = "C12"
 MACHINE = None
 NEEDS_POOL = False
@@ -180,6 +181,15 @@ def execute(p, chooser):
                 obs["late_done"] = [f._state for f in keep.values()]
                 keep.clear()
                 gc.collect()
+            # the last reference may be dropped by the worker itself at the end of its iteration; objects in
+            # reference cycles additionally need a collector pass (CPython's timing, not the library's)
+            for _ in range(4):
+                if worker.done:
+                    break
+                det.sleep(1)
+                gc.collect()
+            if PROBE:
+                PROBE()
             det.wait_until(lambda: worker.done or det.S.now > 300)
             obs["thread_done"] = worker.done
             obs["executor_dead"] = exref() is None
